@@ -183,9 +183,12 @@ def tms_oracle(f):
     if want != got:
         return ("tms-fields", "parsed fields differ from the fields the message was built from", want, got)
     if f["type"] == 2 and f.get("text") is not None:
-        t = call(lambda: q.message.decode("utf-16-le"))
-        if t != f["text"]:
-            return ("tms-text", "UCS-2 text differs after the round trip", f["text"], t)
+        # canonical str of the text's code units (a low+high surrogate sequence "dc00 d800 dc00" reads back with the
+        # inner pair joined, which is the same UCS-2 text)
+        want_t = u16(f["text"]).decode("utf-16-le", "surrogatepass")
+        t = call(lambda: q.message.decode("utf-16-le", "surrogatepass"))
+        if t != want_t:
+            return ("tms-text", "UCS-2 text differs after the round trip", ascii(want_t), ascii(t))
     b2 = call(q.as_bytes)
     if b2 != b:
         return ("tms-reserialise", "serialising the parsed message gives different bytes", b.hex(), b2 if is_err(b2) else b2.hex())
@@ -255,7 +258,8 @@ def ars_enc_line(f) -> str:
 
 def ars_view(q):
     m = A()
-    sid = lambda s: None if s is None else hx(s.encode("utf-8") if isinstance(s, str) else bytes(s))  # noqa: E731
+    # "surrogatepass": a str the strict codec cannot encode must still be shown (it is then a difference)
+    sid = lambda s: None if s is None else hx(s.encode("utf-8", "surrogatepass") if isinstance(s, str) else bytes(s))  # noqa: E731
     rsh = None
     if q.response_second_header is not None:
         r = q.response_second_header
@@ -434,6 +438,10 @@ def gen_tms(rng, in_range_bias=0.85):
     f["ctor"] = rng.choice(["member", "member", "int"])
     n = pick_len(rng, 255, [0, 1, 2, 3, 4, 127, 128, 254, 255])
     f["addr"] = bytes(rng.randrange(256) for _ in range(n)).hex()
+    if rng.random() < 0.15:
+        tok = bytes.fromhex(rng.choice(list(RAW_CORE.values()))) if rng.random() < 0.5 else u16(rng.choice(list(TOK_CORE.values())))
+        a = place(tok, unhx(f["addr"])[: max(0, 255 - 3 * len(tok))], rng.choice(PLACEMENTS))
+        f["addr"] = a[:255].hex()
     strict = rng.random() < in_range_bias
     f["cap"] = None
     f["seq"] = None
@@ -457,7 +465,11 @@ def gen_tms(rng, in_range_bias=0.85):
     if ty == 2 or (not strict and rng.random() < 0.5):
         k = pick_len(rng, 200, [0, 1, 2, 3, 199, 200])
         f["text"] = rand_ucs2(rng, k)
-        f["msg"] = f["text"].encode("utf-16-le").hex()
+        if rng.random() < 0.25:
+            # special tokens (CR LF, BOM, NUL, surrogates, protocol constants ...) into the random text
+            f["text"] = decorate_text(rng, f["text"], 200, lambda t: len(u16(t)) // 2)
+            f["special"] = "text:random"
+        f["msg"] = u16(f["text"]).hex()
     if not strict:
         # leave the property's range on purpose (model and code must still agree, including on errors)
         r = rng.random()
@@ -496,7 +508,12 @@ def gen_ars(rng, in_range_bias=0.85):
                 f[k] = None
             else:
                 n = pick_len(rng, 255, [0, 1, 2, 3, 4, 16, 127, 128, 129, 254, 255])
-                f[k] = rand_ident(rng, n).hex()
+                v = rand_ident(rng, n)
+                if r > 0.75:
+                    v = decorate_text(rng, v.decode("utf-8"), 255, lambda t: len(t.encode("utf-8", "surrogatepass")))
+                    v = (v if not _has_surrogate(v) else "".join(c for c in v if not _has_surrogate(c))).encode("utf-8")
+                    f["special"] = "ident:random"
+                f[k] = v.hex()
     if ty == ARS_RESPONSE or (not strict and rng.random() < 0.3):
         if f["more"] or rng.random() < 0.3:
             if f["ack"]:
@@ -553,8 +570,349 @@ def mutate(rng, b: bytes) -> bytes:
     return bytes(b)
 
 
+# ------------------------------------------------------------------------------------------------
+# special-token dictionary for every text-like field (TMS text and address, ARS identifiers / password)
+#
+# The model treats these fields as opaque octet strings, so any code path that looks INTO the text
+# (drops a leading CR LF, decodes with a BOM-eating codec, strips / truncates at NUL, normalises, parses
+# digits, ...) is by construction a difference to the model and a violation of "parses back to equal
+# fields".  Such a path is only taken for particular contents, at a particular position of a particular
+# field; the generators below put every token of the dictionary at start / middle / end of every such
+# field, alone and doubled, under every encoding, and send each case through the oracle AND the
+# correspondence.
+# ------------------------------------------------------------------------------------------------
+def _has_surrogate(s: str) -> bool:
+    return any(0xD800 <= ord(c) <= 0xDFFF for c in s)
+
+
+def u16(s: str) -> bytes:
+    return s.encode("utf-16-le", "surrogatepass")
+
+
+def u8(s: str):
+    """UTF-8 octets of a str, None where the str has none (lone surrogates)"""
+    return None if _has_surrogate(s) else s.encode("utf-8")
+
+
+# tokens every (placement x field x encoding x carrier) combination is tried with
+TOK_CORE = {
+    # line structure
+    "crlf": "\r\n", "lfcr": "\n\r", "cr": "\r", "lf": "\n", "crcrlf": "\r\r\n", "tab": "\t", "nel": "\x85",
+    "ls": "\u2028", "ps": "\u2029",
+    # byte-order marks, non-characters, replacement character
+    "bom": "\ufeff", "bom-swapped": "\ufffe", "ffff": "\uffff", "fffd": "\ufffd", "fdd0": "\ufdd0",
+    "bom-as-latin1": "\xef\xbb\xbf", "bom16-as-latin1": "\xff\xfe", "bom16be-as-latin1": "\xfe\xff",
+    # NUL and padding (C strings, fixed-width fields)
+    "nul": "\x00", "nul3": "\x00\x00\x00", "nul8": "\x00" * 8, "ff-char": "\xff", "del": "\x7f", "esc": "\x1b",
+    "c1-80": "\x80", "c1-9f": "\x9f",
+    # blanks str.strip() / bytes.strip() remove, invisible characters
+    "sp": " ", "sp2": "  ", "nbsp": "\xa0", "emsp": "\u2003", "idsp": "\u3000", "zwsp": "\u200b", "zwj": "\u200d",
+    "rlo": "\u202e", "wj": "\u2060", "shy": "\xad", "vs16": "\ufe0f",
+    # combining marks / characters that change under NFC, NFKC, case mapping
+    "acute": "\u0301", "e-acute-nfd": "e\u0301", "e-acute-nfc": "\xe9", "jamo": "\u1100\u1161", "angstrom": "\u212b",
+    "fi": "\ufb01", "sharp-s": "\xdf", "dotted-I": "\u0130", "fw-digits": "\uff11\uff12",
+    # outside the BMP (surrogate pairs in UCS-2, four octets in UTF-8)
+    "emoji": "\U0001f600", "u10000": "\U00010000", "u10ffff": "\U0010ffff", "flag": "\U0001f1e8\U0001f1ff",
+    # lone surrogates (encodable only where the field is octets: TMS text, address)
+    "hi-surrogate": "\ud800", "lo-surrogate": "\udfff", "swapped-pair": "\udc00\ud800",
+    # escapes and format directives
+    "quote": "'", "dquote": '"', "bslash": "\\", "pct-s": "%s", "pct-00": "%00", "esc-x00": "\\x00", "esc-rn": "\\r\\n",
+    "braces": "{}", "amp": "&amp;", "comma": ",", "semi": ";",
+    # values a numeric / keyword normalisation changes
+    "zero": "0", "007": "007", "plus1": "+1", "minus0": "-0", "0x10": "0x10", "none-word": "None", "null-word": "null",
+    # protocol constants as characters: CSBK trailer 10 80 (UTF-16-LE of U+8010, and the two characters),
+    # its byte swap, the TMS optional header for UCS2_LE (80 04 = U+0480), header octets, length-value look-alikes
+    "csbk-u8010": "\u8010", "csbk-chars": "\x10\x80", "csbk-u1080": "\u1080", "dle": "\x10", "snhdr-u0480": "\u0480",
+    "snhdr-u0484": "\u0484", "hdr-e0": "\xe0", "hdr-1f": "\x1f", "hdr-50": "\x50", "hdr-bf": "\xbf", "hdr-3f": "\x3f", "hdr-f0": "\xf0",
+    "hdr-d0": "\xd0", "lv-look": "\x02ab", "lv-empty3": "\x00\x00\x00\x01", "pdu-look": "\x00\x03\x3f\x10", "len-look": "\x00\x04",
+}
+# further tokens tried at start / middle / end / alone with one carrier: every C0 control, the other C1 controls
+# and Unicode blanks, more keywords
+TOK_EXTRA = {f"c0-{c:02x}": chr(c) for c in range(1, 0x20) if chr(c) not in "\r\n\t\x1b\x10"}
+TOK_EXTRA.update({f"c1-{c:02x}": chr(c) for c in (0x81, 0x84, 0x8D, 0x90, 0x9B)})
+TOK_EXTRA.update({
+    f"blank-{ord(c):04x}": c for c in "\u1680\u2000\u2001\u2002\u2004\u2005\u2006\u2007\u2008\u2009\u200a\u202f\u205f\u180e\u200c\u200e\u200f\u202a\u202c\u2066\u2069"
+})
+TOK_EXTRA.update({
+    "grave-acute": "\u0300\u0301", "enclosing": "\u20dd", "hangul": "\uac00", "dotless-i": "\u0131", "dz": "\u01c5", "fw-A": "\uff21",
+    "arabic-digit": "\u0663", "kelvin": "\u212a", "ohm": "\u2126", "u1fffe": "\U0001fffe", "ufeff-pair": "\ufeff\ufffe",
+    "lt": "<", "gt": ">", "colon": ":", "at": "@", "slash": "/", "dotdot": "../", "star": "*", "qm": "?", "hash": "#", "eq": "=", "pipe": "|",
+    "dollar": "$", "backtick": "`", "pct": "%", "pct-d": "%d", "u-escape": "\\ufeff", "nul-escape": "\\0",
+    "zeros": "00", "1e3": "1e3", "1_0": "1_0", "sp7": " 7", "7lf": "7\n", "false-word": "False", "true-word": "true", "nan": "nan",
+    "empty-word": "empty", "unknown-word": "unknown", "anonymous": "anonymous", "ack-word": "ACK", "at-cmd": "AT+",
+    "nul2": "\x00\x00", "nul4": "\x00" * 4, "nul16": "\x00" * 16, "ff4": "\xff" * 4, "sp8": " " * 8,
+})
+# raw octet tokens for the fields that are octets in the API (TMS text, TMS address): tokens of another
+# encoding than the field's, odd lengths, protocol constants and whole PDUs
+RAW_CORE = {
+    "crlf8": "0d0a", "lf8": "0a", "cr8": "0d", "crlf16be": "000d000a", "bom8": "efbbbf", "bom16le": "fffe", "bom16be": "feff",
+    "bom32le": "fffe0000", "nul1": "00", "nul2": "0000", "nul3": "000000", "ff1": "ff", "ff2": "ffff", "csbk": "1080", "csbk-swapped": "8010",
+    "dle": "10", "x80": "80", "snhdr-ucs2": "8004", "snhdr-1": "05", "snhdr-127": "9f64", "hdr-text": "e0", "hdr-ack": "9f", "hdr-ack0": "1f",
+    "hdr-avail": "d0", "hdr-ars-bf": "bf", "hdr-ars-3f": "3f", "hdr-ars-f0": "f0", "len-0": "0000", "len-4": "0004", "len-max": "ffff",
+    "pdu-tms-avail": "0003d00001", "pdu-tms-ack": "00021f00", "pdu-tms-text": "000de001019544610068006f006a00", "pdu-ars-csbk": "00033f1080",
+    "pdu-ars-reg": "0007f0200231310000", "hi-surrogate": "00d8", "lo-surrogate": "ffdf", "odd-crlf16": "0d000a", "sp8": "20", "sp16": "2000",
+}
+PLACEMENTS = ["alone", "alone2", "start", "start2", "middle", "middle2", "end", "end2", "both", "joined"]
+PLACEMENTS_FEW = ["alone", "start", "middle", "end"]
+
+
+def place(tok, body, where):
+    """token into a body (both str or both bytes; bytes bodies are split at an even offset)"""
+    h = (len(body) // 2) & ~1 if isinstance(body, bytes) else len(body) // 2
+    if where == "alone":
+        return tok
+    if where == "alone2":
+        return tok + tok
+    if where == "start":
+        return tok + body
+    if where == "start2":
+        return tok + tok + body
+    if where == "middle":
+        return body[:h] + tok + body[h:]
+    if where == "middle2":
+        return body[:h] + tok + tok + body[h:]
+    if where == "end":
+        return body + tok
+    if where == "end2":
+        return body + tok + tok
+    if where == "both":
+        return tok + body + tok
+    if where == "joined":  # the token as separator: start of the 2nd, 3rd, ... part
+        q = max(1, len(body) // 3) if not isinstance(body, bytes) else max(2, (len(body) // 3) & ~1)
+        return tok.join(body[i : i + q] for i in range(0, len(body), q))
+    raise ValueError(where)
+
+
+TMS_BODY = "Reply be1ow"
+ARS_BODY = {"dev": "2001", "user": "Op3rator", "pw": "s3cret"}
+ADDR_BODY = bytes.fromhex("0a0b0c0d")
+# two carriers per protocol: everything else about the message that could gate a content-dependent branch
+TMS_CARRIERS = [
+    {"more": 0, "ack": 0, "res": 0, "addr": "", "seq": 5, "ctor": "member"},
+    {"more": 1, "ack": 1, "res": 1, "addr": "0a0b0c", "seq": 85, "ctor": "int"},
+]
+ARS_CARRIERS = [
+    {"type": 0, "more": 1, "ack": 0, "prio": 0, "ctl": 0, "csbk": 0, "rrh": [1, 0], "ctor": "member", "others": "plain"},
+    {"type": 2, "more": 0, "ack": 1, "prio": 1, "ctl": 1, "csbk": 1, "rrh": None, "ctor": "int", "others": "empty"},
+]
+
+
+def tms_text_fields(carrier, enc, msg: bytes, text, tag):
+    f = {"proto": "tms", "type": 2, "cap": None, "enc": enc, "msg": msg.hex(), "text": text, "special": tag}
+    f.update(carrier)
+    return f
+
+
+def ars_reg_fields(carrier, vals, tag):
+    """vals: {"dev"/"user"/"pw": octets}; the other fields are ordinary values or empty, per carrier"""
+    f = {"proto": "ars", "rsh": None, "special": tag}
+    f.update({k: v for k, v in carrier.items() if k != "others"})
+    for k in ("dev", "user", "pw"):
+        if k in vals:
+            f[k] = vals[k].hex()
+        elif carrier["others"] == "plain":
+            f[k] = ARS_BODY[k].encode().hex()
+        else:
+            f[k] = None if k == "user" else ""
+    return f
+
+
+def special_tokens(ctx, rng, pairs):
+    """the dictionary x placements x fields (x encodings x carriers): a fixed share of both tiers"""
+    te, td, ae, ad, misc = pairs
+    plans = [(n, t, PLACEMENTS, (0, 1)) for n, t in TOK_CORE.items()]
+    plans += [(n, t, PLACEMENTS_FEW, (i & 1,)) for i, (n, t) in enumerate(TOK_EXTRA.items())]
+    for name, tok, places, carriers in plans:
+        sur = _has_surrogate(tok)
+        for where in places:
+            tag = f"{name}@{where}"
+            # TMS text: the token as UCS-2 characters, under no / UNDEFINED / UCS2_LE encoding
+            text = place(tok, TMS_BODY, where)
+            for ci in carriers:
+                for enc in (None, 0, 1) if len(carriers) > 1 else (None, 1):
+                    tms_case(ctx, tms_text_fields(TMS_CARRIERS[ci], enc, u16(text), text, "text:" + tag), te, td, "special")
+                    ctx.count("special:tms-text")
+            ctx.count(f"special:tms-text:{where}")
+            # TMS address: the token's UTF-16-LE and UTF-8 octets inside the address of each PDU type
+            for j, octs in enumerate((u16(tok), u8(tok))):
+                if octs is None or len(carriers) == 1 and j == 1:
+                    continue
+                addr = place(octs, ADDR_BODY, where)
+                for ty in range(3):
+                    f = {"proto": "tms", "type": ty, "more": 0, "ack": ty & 1, "res": 0, "addr": addr.hex(), "cap": 2 if ty == 0 else None,
+                         "seq": 33 if ty else None, "enc": 1 if ty == 2 else None, "msg": u16(TMS_BODY).hex() if ty == 2 else None,
+                         "text": TMS_BODY if ty == 2 else None, "ctor": "member", "special": "addr:" + tag}
+                    tms_case(ctx, f, te, td, "special")
+                    ctx.count("special:tms-address")
+            # ARS identifiers / password: the token as UTF-8, in each field and in all three at once
+            if sur:
+                ctx.count("special:ars-skipped-unencodable")
+                continue
+            for ci in carriers:
+                for field in ("dev", "user", "pw", "all"):
+                    ks = ("dev", "user", "pw") if field == "all" else (field,)
+                    vals = {k: place(tok, ARS_BODY[k], where).encode("utf-8") for k in ks}
+                    ars_case(ctx, ars_reg_fields(ARS_CARRIERS[ci], vals, f"{field}:{tag}"), ae, ad, "special")
+                    ctx.count("special:ars-" + field)
+            ctx.count(f"special:ars-ident:{where}")
+    # raw octet tokens in the octet-typed fields
+    body = u16(TMS_BODY)
+    for name, h in RAW_CORE.items():
+        tok = bytes.fromhex(h)
+        for where in PLACEMENTS:
+            tag = f"raw-{name}@{where}"
+            msg = place(tok, body, where)
+            for ci in (0, 1):
+                for enc in (None, 0, 1):
+                    tms_case(ctx, tms_text_fields(TMS_CARRIERS[ci], enc, msg, None, "text:" + tag), te, td, "special")
+                    ctx.count("special:tms-text-raw")
+            addr = place(tok, ADDR_BODY, where)
+            for ty in range(3):
+                f = {"proto": "tms", "type": ty, "more": 0, "ack": 0, "res": ty & 1, "addr": addr.hex(), "cap": 0 if ty == 0 else None,
+                     "seq": 31 if ty else None, "enc": 1 if ty == 2 else None, "msg": body.hex() if ty == 2 else None,
+                     "text": TMS_BODY if ty == 2 else None, "ctor": "member", "special": "addr:" + tag}
+                tms_case(ctx, f, te, td, "special")
+                ctx.count("special:tms-address-raw")
+    # two different tokens in one value (adjacent at the start, first and last, adjacent at the end) and
+    # different tokens in the three ARS fields: random pairs in quick, more in thorough
+    names = list(TOK_CORE) + list(TOK_EXTRA)
+    alltok = dict(TOK_CORE, **TOK_EXTRA)
+    for _ in range(ctx.budget(600, 30000)):
+        a, b, c = (alltok[rng.choice(names)] for _ in range(3))
+        shape = rng.randrange(4)
+        mk = lambda body: [a + b + body, a + body + b, body + a + b, a + body[: len(body) // 2] + b + body[len(body) // 2 :] + c][shape]  # noqa: E731
+        text = mk(TMS_BODY if rng.random() < 0.8 else "")
+        car = dict(rng.choice(TMS_CARRIERS), seq=rng.choice(SEQ_EDGES))
+        tms_case(ctx, tms_text_fields(car, rng.choice([None, 0, 1, 1]), u16(text), text, "text:pair"), te, td, "special")
+        ctx.count("special:tms-text-pairs")
+        if not _has_surrogate(a + b + c):
+            car = rng.choice(ARS_CARRIERS)
+            if rng.random() < 0.5:
+                vals = {k: mk(ARS_BODY[k] if rng.random() < 0.8 else "").encode("utf-8") for k in rng.sample(("dev", "user", "pw"), rng.randint(1, 3))}
+            else:
+                vals = {"dev": (a + ARS_BODY["dev"]).encode(), "user": (b + ARS_BODY["user"]).encode(), "pw": (c + ARS_BODY["pw"]).encode()}
+            ars_case(ctx, ars_reg_fields(car, vals, "pair"), ae, ad, "special")
+            ctx.count("special:ars-pairs")
+
+
+MAX_CHARS = ["\ufeff", "\u20ac", "\uffff", "\u0800", "\x00", "\x7f", "\x80", "\u07ff", "\U00010000", "\U0010ffff", "\r\n", "\x10\x80", " ", "\u0301", "\xe9"]
+MAX_UNITS = ["\r\n", "\ufeff", "\x00", "\uffff", "\ufffe", "\u8010", "\u0480", "\U0001f600", "\ud800", " ", "\n", "\u0301"]
+
+
+def fill(ch: str, size: int, measure, pad_first: bool) -> str:
+    """as many repetitions of ch as fit into `size` (measured by `measure`), padded with 'a'"""
+    k = size // measure(ch)
+    s = ch * k
+    pad = "a" * (size - measure(s))
+    return pad + s if pad_first else s + pad
+
+
+def special_lengths(ctx, rng, pairs):
+    """sibling classes of the token dictionary that are about SIZE: maximal-length values made of multi-byte
+    characters, every text length 0..202 of special characters, sums of the three ARS fields around 256"""
+    te, td, ae, ad, misc = pairs
+    nb = lambda s: len(s.encode("utf-8"))  # noqa: E731
+    nu = lambda s: len(u16(s)) // 2  # noqa: E731
+    for ch in MAX_CHARS:
+        for size in (253, 254, 255, 256, 258):
+            for pad_first in (False, True):
+                v = fill(ch, size, nb, pad_first).encode("utf-8")
+                for ci, field in ((0, "dev"), (1, "user"), (0, "pw"), (1, "all")):
+                    ks = ("dev", "user", "pw") if field == "all" else (field,)
+                    ars_case(ctx, ars_reg_fields(ARS_CARRIERS[ci], {k: v for k in ks}, f"{field}:max{size}:{ord(ch[0]):x}"), ae, ad, "special")
+                    ctx.count("special:ars-maxlen-multibyte" if size <= 255 else "special:ars-overlong-multibyte")
+    for ch in MAX_UNITS:
+        for size in (199, 200, 201, 202):
+            for pad_first in (False, True):
+                text = fill(ch, size, nu, pad_first)
+                for ci, enc in ((0, 1), (1, None), (1, 1)):
+                    tms_case(ctx, tms_text_fields(TMS_CARRIERS[ci], enc, u16(text), text, f"text:max{size}:{ord(ch[0]):x}"), te, td, "special")
+                    ctx.count("special:tms-maxlen-text" if size <= 200 else "special:tms-overlong-text")
+    # every text length 0..202 (frame lengths crossing 255/256) of a cycle of special characters, CR LF first
+    cyc = "\r\n\ufeff\x00\u8010\xe9\u20ac \uffff\u0301\n"
+    for n in range(203):
+        text = (cyc * (n // len(cyc) + 1))[:n]
+        for ci, enc in ((n & 1, 1), (1 - (n & 1), None)):
+            tms_case(ctx, tms_text_fields(TMS_CARRIERS[ci], enc, u16(text), text, f"text:len{n}"), te, td, "special")
+            ctx.count("special:tms-text-length-sweep")
+    # 255-octet addresses made of constants
+    for h in ("00", "ff", "1080", "0d000a00", "fffe", "efbbbf", "20"):
+        for n in (254, 255):
+            unit = bytes.fromhex(h)
+            addr = (unit * (n // len(unit) + 1))[:n]
+            for ty in range(3):
+                f = {"proto": "tms", "type": ty, "more": 0, "ack": 0, "res": 0, "addr": addr.hex(), "cap": 3 if ty == 0 else None,
+                     "seq": 127 if ty else None, "enc": 1 if ty == 2 else None, "msg": "0d000a00" if ty == 2 else None,
+                     "text": "\r\n" if ty == 2 else None, "ctor": "member", "special": f"addr:max{n}:{h}"}
+                tms_case(ctx, f, te, td, "special")
+                ctx.count("special:tms-maxlen-address")
+    # the three ARS fields together around a payload of 256 octets
+    for n in range(80, 91):
+        for ch in ("\ufeff", "\xe9", "a", "\U0001f600"):
+            v = fill(ch, n, nb, False).encode("utf-8")
+            ars_case(ctx, ars_reg_fields(ARS_CARRIERS[n & 1], {"dev": v, "user": v, "pw": v}, f"all:sum{3 * n}"), ae, ad, "special")
+            ctx.count("special:ars-payload-256")
+
+
+ILL_FORMED = ["c080", "c1bf", "e08080", "eda080", "edbfbf", "edafbfedbfbf", "f0808080", "f4908080", "f8888080", "c2", "e282", "f09f98",
+              "80", "bf", "fe", "ff", "c328", "e28028", "fffe", "feff", "c0af"]
+WELL_FORMED_EDGE = ["efbbbf", "ed9fbf", "ee8080", "efbfbe", "efbfbf", "f0908080", "f48fbfbf", "c280", "dfbf", "e0a080", "00", "7f", "10c280"]
+
+
+def special_wire(ctx, pairs):
+    """hand-made wire images through the parsers (correspondence; the property speaks about messages built
+    from fields, these are the parser inputs as_bytes never produces): ill-formed / boundary UTF-8 in each ARS
+    field, TMS text messages without the optional header or with surplus octets behind the stated length"""
+    te, td, ae, ad, misc = pairs
+    for i, h in enumerate(ILL_FORMED + WELL_FORMED_EDGE):
+        bad = bytes.fromhex(h)
+        misc.append((f"ars.utf8 {h}", "1" if i >= len(ILL_FORMED) else "0"))
+        for where in ("alone", "start", "end", "middle"):
+            v = place(bad, b"ab", where) if where != "middle" else b"a" + bad + b"b"
+            for k in range(3):
+                for more in (0, 1):
+                    lvs = [b"\x0211", b"\x00", b"\x01x"]
+                    lvs[k] = bytes([len(v)]) + v
+                    pl = bytes([0xF0 if more else 0x45]) + (b"\x20" if more else b"") + b"".join(lvs) + (b"\x10\x80" if k == 1 else b"")
+                    d = len(pl).to_bytes(2, "big") + pl
+                    ad.append((f"ars.dec {d.hex()}", ars_dec(d)))
+                    ctx.count("special:ars-wire-utf8")
+    body = u16(TMS_BODY)
+    toks = [u16(t) for t in TOK_CORE.values()] + [bytes.fromhex(h) for h in RAW_CORE.values()]
+    for tok in toks:
+        for where in ("alone", "start", "end"):
+            msg = place(tok, body, where)
+            for hb, opt in ((0x20, b""), (0x00, b""), (0x60, b""), (0xA0, b"\x05"), (0xE0, b"\x95\x44"), (0xA0, b"\x9f\x60")):
+                pl = bytes([hb, 2, 0x0A, 0x0B]) + opt + msg
+                d = len(pl).to_bytes(2, "big") + pl
+                td.append((f"tms.dec {d.hex()}", tms_dec(d)))
+                # the same image with the token once more behind the stated length, and with a stated length cut short
+                d2 = d + tok
+                td.append((f"tms.dec {d2.hex()}", tms_dec(d2)))
+                if len(pl) > 6:
+                    d3 = (len(pl) - 2).to_bytes(2, "big") + pl
+                    td.append((f"tms.dec {d3.hex()}", tms_dec(d3)))
+                ctx.count("special:tms-wire-text")
+
+
+def decorate_text(rng, text: str, limit: int, measure) -> str:
+    """random tokens into a random value (random generator's share); keeps the value within `limit`"""
+    names = list(TOK_CORE)
+    for _ in range(rng.choice([1, 1, 2, 3])):
+        tok = TOK_CORE[rng.choice(names)] if rng.random() < 0.8 else rng.choice(list(TOK_EXTRA.values()))
+        where = rng.choice(PLACEMENTS)
+        room = limit - measure(place(tok, "", where) if where not in ("joined",) else tok * 3)
+        if room < 0:
+            continue
+        body = text
+        while measure(body) > room:
+            body = body[: len(body) // 2] if measure(body) > 2 * room + 2 else body[:-1]
+        text = place(tok, body, where)
+    return text
+
+
 # captured messages of the test-suite (okdmr/tests/dmrlib/motorola/test_tms.py, test_ars.py)
-TMS_CAPTURED = ["0003d00001", "00021f00", "00049f009520", "000de001019544610068006f006a00"]
+TMS_CAPTURED =["0003d00001", "00021f00", "00049f009520", "000de001019544610068006f006a00"]
 ARS_CAPTURED = ["0007f0200231310000", "000131", "0010f5000231310939393939393939393900", "0002bf01", "000174", "00013f", "00033f1080"]
 
 # inputs of repaired defects (25ab0e1, f85a0e9) and boundary cases found while modelling
@@ -789,6 +1147,9 @@ def run(ctx):
         f = dict(f, ctor="member")
         ars_case(ctx, f, ae, ad, "corpus")
     sweeps(ctx, (te, td, ae, ad, misc))
+    special_tokens(ctx, rng, (te, td, ae, ad, misc))
+    special_lengths(ctx, rng, (te, td, ae, ad, misc))
+    special_wire(ctx, (te, td, ae, ad, misc))
     utf8_probe(ctx, rng, misc, ctx.budget(2000, 40000))
     n = ctx.budget(5000, 200000)
     for i in range(n):
